@@ -34,6 +34,7 @@
    there too (skeleton-step-differs). *)
 From Coq Require Import ZArith NArith List Bool String.
 From EvyV Require Import Base FmtAst Format FormatProofs FormatNlProofs FormatShapeProofs FormatSpecProofs FormatDepthProofs.
+From EvyV Require FormatParseFuncProofs.
 Import ListNotations.
 Open Scope N_scope.
 
@@ -131,6 +132,23 @@ Theorem C07_second_pass_is_plain : forall (p : fprog) (ks : list skind),
   fmt_prog current_fixes p = flat_map (plain_line current_fixes) p.
 Proof. intros p ks H. exact (second_pass_is_plain current_fixes p ks eq_refl H). Qed.
 Print Assumptions C07_second_pass_is_plain.
+
+(* Tie to the parser model (round trip of C06_funcs.v): the tree [prog_trees nl 0 false p] that
+   Parser.program_loop returns for the formatter's tokens of a comment-free p has, as its top-level statement
+   kinds, exactly one step of the blank-line logic on p's kinds.  With C07_blank_line_logic_idempotent /
+   C07_blank_line_logic_stable: on the re-parsed tree a second pass marks nothing and squeezes nothing.
+   _partial: this is idempotence of the blank-line structure on the fragment of
+   C06_roundtrip_program_loop_funcs_partial, not of the text - Parser.v's trees do not carry the types and
+   literal texts the formatter prints, so format (parse (format p)) is not a function of them. *)
+Theorem C07_format_idempotent_fragment_partial : forall (p : fprog), p <> [] ->
+  Forall (fun x => stmt_kind x <> KComment) p ->
+  let nl := nl_after (fix_nl current_fixes) (map stmt_kind p) in
+  let ks' := map FormatParseFuncProofs.pkind (FormatParseFuncProofs.prog_trees nl 0%nat false p) in
+  ks' = skel_step (fix_nl current_fixes) (map stmt_kind p) /\
+  nl_after (fix_nl current_fixes) ks' = [] /\
+  skel_step (fix_nl current_fixes) ks' = ks'.
+Proof. exact FormatParseFuncProofs.reparse_skeleton_step. Qed.
+Print Assumptions C07_format_idempotent_fragment_partial.
 
 (* `evy fmt -c` *)
 Theorem C07_check_accepts_iff_formatted : forall (parse : str -> option fprog) (fixed : fixes) (t : str),
